@@ -55,11 +55,11 @@ SPECS += [
         "hexital.indicators.bbands.BBANDS",
         params=dict(RV, period=("int", None), input_value=("name", None), s=("int", None)),
         ctor={"skip": ("s",)},
-        lets=dict(LETS, X="input_value", w=BB_W, SMA="f'SMA_{period}'", SD="f'STDEV_{period}'"),
+        lets=dict(LETS, X="input_value", w=BB_W, SMA="f'{N}_SMA'", SD="f'{N}_STDEV'"),
         extra_pre=dict(PRE_RV, **{"period>=2": "period >= 2"}),
         inputs={"X": ("s", "num")},
-        subs={"self.sub_indicators[f'STDEV_{period}']": {"role": "prior", "ghost": {"s": "s"}},
-              "self.sub_indicators[f'SMA_{period}']": {"role": "prior", "ghost": {"s": "s"}}},
+        subs={"self.sub_indicators[f'{N}_STDEV']": {"role": "prior", "ghost": {"s": "s"}},
+              "self.sub_indicators[f'{N}_SMA']": {"role": "prior", "ghost": {"s": "s"}}},
         inv={
             "dict": (f"isdict({R('N')})", ["C05", "C09"]),
             "presence": (f"iff({R('''f'{N}.BBM' ''')} is not None, j >= w) and iff({R('''f'{N}.BBL' ''')} is not None, j >= w) and iff({R('''f'{N}.BBU' ''')} is not None, j >= w)", ["C05", "C09"]),
